@@ -18,7 +18,8 @@ import types
 
 from . import core
 
-FIELDS = {'P': [('a', 'int'), ('b', 'str')], 'Q': [('x', 'str'), ('n', 'int'), ('p', 'P'), ('f', 'bool')]}
+FIELDS = {'P': [('a', 'int'), ('b', 'str')], 'Q': [('x', 'str'), ('n', 'int'), ('p', 'P'), ('f', 'bool')],
+          'Ack': []}     # Ack: a ComplexModel WITHOUT members (a plain acknowledgement object)
 TNS = 'c18.tns'
 SOAP_ENV = 'http://schemas.xmlsoap.org/soap/envelope/'
 PROTOS = ('xml', 'soap', 'json')
@@ -57,8 +58,11 @@ class Env(object):
             __namespace__ = TNS
             _type_info = [('x', Unicode), ('n', Integer), ('p', P), ('f', Boolean)]
 
-        self.P, self.Q = P, Q
-        self.types = {'int': Integer, 'str': Unicode, 'bool': Boolean, 'P': P, 'Q': Q,
+        class Ack(ComplexModel):
+            __namespace__ = TNS
+
+        self.P, self.Q, self.Ack = P, Q, Ack
+        self.types = {'int': Integer, 'str': Unicode, 'bool': Boolean, 'P': P, 'Q': Q, 'Ack': Ack,
                       'arr': Array(Integer), 'iter': Iterable(Integer)}
         self.fields = {'P': [('a', 'int'), ('b', 'str')], 'Q': [('x', 'str'), ('n', 'int'), ('p', 'P'), ('f', 'bool')]}
 
@@ -152,7 +156,7 @@ def native(c, E=None):
     if 'l' in c:
         return [native(x, E) for x in c['l']]
     if 'o' in c:
-        cls = {'P': E.P, 'Q': E.Q}[c['o'][0]]
+        cls = {'P': E.P, 'Q': E.Q, 'Ack': E.Ack}[c['o'][0]]
         return cls(**{k: native(x, E) for k, x in c['o'][1]})
     raise ValueError(c)
 
@@ -487,6 +491,19 @@ def _measure_facts(E):
         f['cbOrder'] = 'outBareFirst'
     else:
         f['cbOrder'] = 'other:' + json.dumps(outs)
+    # the two tests of null.py `_is_empty_wrapper` (only observable when "nothing declared" is decided first)
+    f['ewWrapper'] = f['ewMembers'] = True
+    if f['cbOrder'] == 'noReturnFirst':
+        ack = {'o': ['Ack', []]}
+        outs = []
+        for style, params, ptypes in (('out_bare', ['a'], ['int']), ('bare', [], [])):
+            p = prog(style, params, ptypes, ret_one('Ack'), ['Ack'], {'k': 'const', 'v': ack})
+            outs.append(p.call_null([], [])[1])
+        f['ewWrapper'] = True if all(o == {'ok': ack} for o in outs) else \
+            (False if all(o == {'ok': None} for o in outs) else 'other:' + json.dumps(outs))
+        p = prog('wrapped', [], [], {'one': None}, ['int'], {'k': 'const', 'v': {'i': '5'}})
+        o = p.call_null([], [])[1]
+        f['ewMembers'] = True if o == {'ok': {'i': '5'}} else (False if o == {'ok': None} else 'other:' + json.dumps(o))
     # ignMany: what get_out_object leaves in ctx.out_object for a lone Ignored with 3 declared return values
     def ign_many():
         p = prog('wrapped', [], [], {'many': 3}, ['int', 'int', 'int'], {'k': 'ignored', 'v': {'i': '1'}})
@@ -529,7 +546,7 @@ def _measure_facts(E):
 
 
 GOOD = {'isOutBare': {'WRAPPED': False, 'EMPTY': True, 'BARE': True, 'OUT_BARE': True, 'EMPTY_OUT_BARE': True},
-        'wrapUpTo': 1, 'cbOrder': 'noReturnFirst', 'ignMany': 'nones'}
+        'wrapUpTo': 1, 'cbOrder': 'noReturnFirst', 'ignMany': 'nones', 'ewWrapper': True, 'ewMembers': True}
 GOOD_PROTO = {'bareOut': 'first', 'bareIn': 'methodName', 'noneSingle': 'nil'}
 
 
@@ -556,6 +573,8 @@ def facts18 : Facts18 where
     | .wrapped => %s | .empty => %s | .bare => %s | .outBare => %s | .emptyOutBare => %s
   wrapUpTo := %d
   cbOrder := .%s
+  ewWrapper := %s
+  ewMembers := %s
   ignMany := .%s
   xml := %s
   soap := %s
@@ -565,6 +584,7 @@ end SpyneModel.Generated
 ''' % (b(f['kwNoneSkipped'] is True), b(t['WRAPPED']), b(t['EMPTY']), b(t['BARE']), b(t['OUT_BARE']), b(t['EMPTY_OUT_BARE']),
        max(f['wrapUpTo'], 0) if f['wrapUpTo'] >= 0 else 99,
        ctor(f['cbOrder'], ('noReturnFirst', 'outBareFirst'), 'outBareFirst'),
+       b(f['ewWrapper'] is True), b(f['ewMembers'] is True),
        ctor(f['ignMany'], ('nones', 'emptyTuple'), 'emptyTuple'),
        cfg(f['xml']), cfg(f['soap']), cfg(f['json']))
 
@@ -584,6 +604,12 @@ def fact_witness(name, proto=None):
     if name == 'bareIn':
         return dict(sig={'style': 'bare', 'params': ['p'], 'bareArg': P, 'returns': {'one': None}}, ptypes=['P'],
                     rtypes=['int'], script={'k': 'field', 'f': 'a'}, pos=[{'i': '5'}, {'s': 'q'}], kw=[], protos=[proto])
+    if name == 'ewWrapper':
+        return dict(sig={'style': 'out_bare', 'params': ['a'], 'bareArg': None, 'returns': ret_one('Ack')}, ptypes=['int'],
+                    rtypes=['Ack'], script={'k': 'const', 'v': {'o': ['Ack', []]}}, pos=[{'i': '1'}], kw=[], protos=list(PROTOS))
+    if name == 'ewMembers':
+        return dict(sig={'style': 'wrapped', 'params': ['a'], 'bareArg': None, 'returns': {'one': None}}, ptypes=['int'],
+                    rtypes=['int'], script={'k': 'pick', 'idx': [0]}, pos=[{'i': '5'}], kw=[], protos=list(PROTOS))
     if name == 'noneSingle':
         return dict(sig={'style': 'wrapped', 'params': [], 'bareArg': None, 'returns': ret_one('P')}, ptypes=[],
                     rtypes=['P'], script={'k': 'const', 'v': None}, pos=[], kw=[], protos=[proto])
@@ -615,6 +641,8 @@ def gen_value(rng, t, allow_none=True, depth=0):
         return {'b': rng.random() < 0.5}
     if t in ('arr', 'iter'):
         return {'l': [gen_value(rng, 'int', False) for _ in range(rng.choice([1, 1, 2, 3, 4]))]}
+    if t == 'Ack':
+        return {'o': ['Ack', []]}
     if t == 'P':
         return {'o': ['P', [['a', gen_value(rng, 'int')], ['b', gen_value(rng, 'str')]]]}
     if t == 'Q':
@@ -623,7 +651,7 @@ def gen_value(rng, t, allow_none=True, depth=0):
     raise ValueError(t)
 
 
-ARG_TYPES = ['int', 'str', 'bool', 'P', 'Q', 'arr']
+ARG_TYPES = ['int', 'str', 'bool', 'P', 'Q', 'arr', 'Ack']
 
 
 def gen_script(rng, sig, ptypes, rtypes, recv_types, kind):
@@ -783,6 +811,18 @@ def boundary_specs():
         add(style, [], [], ret_one('P'), ['P'], {'k': 'const', 'v': {'o': ['P', [['a', {'i': '3'}], ['b', None]]]}})
         add(style, [], [], ret_one('P'), ['P'], {'k': 'const', 'v': None})
         add(style, [], [], ret_one('iter'), ['iter'], {'k': 'gen', 'v': [{'i': '1'}, {'i': '2'}]})
+    # a return type WITHOUT members is not "nothing declared": instance and None, every body style
+    ack = {'o': ['Ack', []]}
+    for v in (ack, None):
+        add('wrapped', ['n'], ['int'], ret_one('Ack'), ['Ack'], {'k': 'const', 'v': v})
+        add('out_bare', ['n'], ['int'], ret_one('Ack'), ['Ack'], {'k': 'const', 'v': v})
+        add('out_bare', [], [], ret_one('Ack'), ['Ack'], {'k': 'const', 'v': v})
+        add('bare', [], [], ret_one('Ack'), ['Ack'], {'k': 'const', 'v': v})
+        add('bare', ['p'], ['P'], ret_one('Ack'), ['Ack'], {'k': 'const', 'v': v}, bareArg=P2)
+    add('bare', ['p'], ['P'], ret_one('Ack'), ['Ack'], {'k': 'ignored', 'v': {'i': '1'}}, bareArg=P2)
+    add('wrapped', ['k', 'n'], ['Ack', 'int'], ret_one('Ack'), ['Ack'], {'k': 'pick', 'idx': [0]})
+    add('out_bare', ['k'], ['Ack'], ret_one('Ack'), ['Ack'], {'k': 'pick', 'idx': [0]})
+    add('wrapped', ['k'], ['Ack'], {'many': 2}, ['Ack', 'Ack'], {'k': 'pick', 'idx': [0, 0], 'many': True})
     add('out_bare', ['a', 'b'], ['int', 'str'], ret_one('P'), ['P'], {'k': 'const', 'v': {'o': ['P', [['a', {'i': '3'}], ['b', {'s': 'q'}]]]}})
     add('out_bare', ['a'], ['int'], one, ['int'], {'k': 'pick', 'idx': [0]})
     add('out_bare', ['a'], ['int'], None, [], {'k': 'const', 'v': {'s': 'junk'}})
@@ -816,6 +856,8 @@ def bad_decorations():
         spec_of({'style': 'bare', 'params': ['p', 'q'], 'bareArg': P2, 'returns': {'one': None}}, ['P', 'P'], ['int'], {'k': 'const', 'v': None}, 'bad1'),
         spec_of({'style': 'out_bare', 'params': ['a'], 'bareArg': None, 'returns': {'many': 2}}, ['int'], ['int', 'int'], {'k': 'const', 'v': None}, 'bad2'),
         spec_of({'style': 'bare', 'params': [], 'bareArg': None, 'returns': {'many': 2}}, [], ['int', 'int'], {'k': 'const', 'v': None}, 'bad3'),
+        # body_style='bare' does not allow an empty model as its parameter
+        spec_of({'style': 'bare', 'params': ['k'], 'bareArg': ['Ack', []], 'returns': {'one': None}}, ['Ack'], ['int'], {'k': 'const', 'v': None}, 'bad4'),
     ]
 
 
@@ -1031,7 +1073,7 @@ def run(ctx):
     ctx.cov['rule'] = ('cases = (signature, scripted body, call) triples: hand-written corners (the six calls of '
                        'test_null_server.py, every body style x {no, one, many} return values x {value, Ignored, fault, '
                        'error, generator, undeclared return}) and seeded random signatures (style, 0..5 arguments of '
-                       'int/str/bool/complex/nested complex/array, 0..4 return values); each argument tuple is passed '
+                       'int/str/bool/complex/nested complex/member-less complex/array, 0..4 return values of the same types); each argument tuple is passed '
                        'positionally, by keyword, split, split without the Nones, short, with an unknown keyword; '
                        'every pos/kw/split call is also sent through XmlDocument, Soap11 and JsonDocument. '
                        'distinct = distinct canonical (op, signature, script, call[, protocol]); all are non-trivial')
